@@ -66,15 +66,15 @@ func (w *world) installMonitor() {
 type c04Req int
 
 const (
-	qCreateNew c04Req = iota // success
-	qCreateDup               // failed condition
-	qUpdOK                   // success
-	qUpdStale                // failed condition
-	qUpdFuture               // rejected: expected revision in the future
-	qUpdNeg                  // rejected: negative revision through the etcd path (a huge unsigned value)
-	qDelOK                   // success
-	qDelMissing              // key not found
-	qDelFuture               // rejected
+	qCreateNew  c04Req = iota // success
+	qCreateDup                // failed condition
+	qUpdOK                    // success
+	qUpdStale                 // failed condition
+	qUpdFuture                // rejected: expected revision in the future
+	qUpdNeg                   // rejected: negative revision through the etcd path (a huge unsigned value)
+	qDelOK                    // success
+	qDelMissing               // key not found
+	qDelFuture                // rejected
 	nC04Req
 )
 
